@@ -452,7 +452,11 @@ def transform_system(principal_vec, principal_default, other_vecs,
                         np.linalg.norm(principal_default))
 
         # Determine the rotation part
-        if np.allclose(principal_vec, dilation * principal_default):
+        if (pr_norm != 0.0 and pr_default_norm != 0.0 and
+                np.allclose(principal_vec / pr_norm,
+                            principal_default / pr_default_norm,
+                            rtol=0, atol=1e-8)) or (
+                pr_norm == 0.0 and pr_default_norm == 0.0):
             # Dilation only
             matrix = np.eye(ndim)
         else:
